@@ -116,6 +116,16 @@ def run_in_state(prog, fn: Function, st, config: Optional[Dict[str, T]] =
             return extra_assume(t)
         return None
     it.assume = assume
+
+    def absent(base: T, name: str) -> Optional[bool]:
+        if base is not selfp or name not in state:
+            return None
+        cur = it.attrs.get((selfp, name))
+        if cur is not None:
+            return True if cur.op == "deleted" else (
+                False if cur.op != "ite" else None)
+        return not state[name]
+    it.attr_absent = absent
     store = it._store_attr
 
     def store_view(base: T, name: str, v: T, live: T):
